@@ -17,10 +17,10 @@ def run(rep):
     if not q:
         fw.standin(rep, 'difftest.py', ['run', 'F2', rep.seed, 0, '--exhaustive', '--max-depth', 2],
                    'translation validation, exhaustive depth<=2', 'all 35341 body trees of depth<=2', timeout=1800)
-    fw.standin(rep, 's_tv.py', ['run', rep.seed, 2500 if q else 60000],
+    fw.standin(rep, 's_tv.py', ['run', rep.seed, 8000 if q else 80000],
                'A-CPY-TEXT: YPCode trees rendered by the real generator and executed by CPython vs the target semantics <<.>> (calls, answers, yields in order)',
                'all code lists of <=2 statements of depth <=1 + random trees of depth <=4 over goals with 0/1/2 answers, nested blocks')
-    fw.standin(rep, 's_ctl.py', ['run', rep.seed, 500 if q else 8000],
+    fw.standin(rep, 's_ctl.py', ['run', rep.seed, 2000 if q else 12000],
                'control constructs in clauses with plain distinct head variables (no enclosing loop), nested in conditions and under negation',
                'systematic nested-condition trees + random F2 trees')
     rep.notes.append('compile_body is verified path by path against semb (cut = seq(yield,cut); YieldBreak = cut) for all sub-bodies; '
